@@ -28,7 +28,8 @@ def run(ctx):
     import json
     xdrv = vf.build_driver("xportdrv")
     t = ctx.path("pipe.ndjson")
-    ctx.driver(xdrv, ["-mode", "pipe", "-n", 800 if ctx.quick else 6000, "-out", t], timeout=1200)
+    # (-long: one connection is driven through more than 65536 exchanges with a query outstanding all along)
+    ctx.driver(xdrv, ["-mode", "pipe", "-n", 600 if ctx.quick else 6000, "-long", "-out", t], timeout=1200)
     ctx.validate("PipelineTrace", t, lambda ev, inv: "%s:%s" % (inv, ev.get("ev", "?")),
                  describe=lambda ev, inv: "%s at %s" % (inv, json.dumps(ev)[:300]), timeout=1800, require_events=3000, only=["Inv_C05_", "Unconsumable"])
     ctx.assumptions += [
